@@ -229,6 +229,36 @@ def routeJudge (f : List String) (out : String) : String :=
           | none => "bad:unparsable:rule index"
         | _, _, _ => "bad:unparsable:" ++ (out.take 60).toString
       | _ => "bad:unparsable:" ++ (out.take 60).toString
+
+/-! c13.routeseq  cs rules files (method pathhex queryhex headershex bodyhex remote te)+
+   The requests are served one after the other by ONE fastcgi middleware; the handler keeps nothing
+   between requests, so each answer is that of c13.route for the request alone.  out = the answers, TAB separated. -/
+def seqCases : List String → Option (List (List String))
+  | cs :: rules :: files :: rest =>
+    let rec go : Nat → List String → Option (List (List String))
+      | 0, _ => none
+      | _ + 1, [] => some []
+      | n + 1, m :: p :: q :: h :: b :: rm :: te :: more => do
+        pure ([cs, rules, files, m, p, q, h, b, rm, te] :: (← go n more))
+      | _ + 1, _ => none
+    go (rest.length + 1) rest
+  | _ => none
+
+def routeseqModel (f : List String) : String :=
+  match seqCases f with
+  | some cases => "\t".intercalate (cases.map routeModel)
+  | none => "bad-case"
+
+def routeseqJudge (f : List String) (out : String) : String :=
+  match seqCases f with
+  | none => "bad:unparsable:case"
+  | some cases =>
+    let outs := out.splitOn "\t"
+    if outs.length ≠ cases.length then "bad:unparsable:not one answer per request"
+    else
+      match ((cases.zip outs).map fun (c, o) => routeJudge c o).find? (· ≠ "ok") with
+      | some v => v
+      | none => "ok"
 end route
 
 /-! c13.child  vars hdrs body status respbody
@@ -446,6 +476,7 @@ def streams : List Driver.Stream := [
   { name := "c13.wire", model := wireModel, judge := wireJudge },
   { name := "c13.demux", model := demuxModel, judge := demuxJudge },
   { name := "c13.route", model := routeModel, judge := routeJudge },
+  { name := "c13.routeseq", model := routeseqModel, judge := routeseqJudge },
   { name := "c13.child", model := childModel, judge := childJudge },
   { name := "c13.reads", model := readsModel, judge := readsJudge },
   { name := "c13.wfail", model := wfailModel, judge := wfailJudge }
